@@ -19,7 +19,7 @@ import (
 
 var (
 	logIDs   = []string{"wt", "whatap", "app-1"}
-	onames   = []string{"boot", "agent1", "my-app"}
+	onames   = []string{"boot", "agent1", "my-app", "node1.example.com", "10.0.0.7"} // object names are often host names or addresses
 	prefixes = []string{"conn fail ", "conn fail:", "db timeout", "WA20301ABC", "disk full "} // exactly 10 bytes each: the limiter key of a message
 	idKeys   = []string{"WA101", "WA102", "db timeout", "WA20301ABC", "a"}                    // explicit ids of Printf/Println (two coincide with message prefixes)
 	badDates = []string{"2020010", "202001011", "snapshot", "2020010x", "20201399", "20200431", "20210229", "20200100", "20200001",
@@ -575,7 +575,7 @@ func runHist(c HistCase) *pbt.Result {
 func drawConf(t *rapid.T) map[string]string {
 	cf := map[string]string{}
 	if rapid.IntRange(0, 9).Draw(t, "has_level") > 0 {
-		cf["log_level"] = rapid.SampledFrom([]string{"error", "warn", "info", "debug", "debug", "info"}).Draw(t, "level")
+		cf["log_level"] = rapid.SampledFrom([]string{"error", "warn", "info", "debug", "debug", "info", "DEBUG", "Info", "ERROR", "Warn", "trace"}).Draw(t, "level") // names are matched without regard to case, unknown names mean warn
 	}
 	if rapid.IntRange(0, 9).Draw(t, "has_interval") > 0 {
 		cf["_log_interval"] = strconv.Itoa(rapid.SampledFrom([]int{-1, 0, 0, 1, 1, 2, 5, 10, 60, 3600, 86400}).Draw(t, "interval"))
